@@ -143,6 +143,35 @@ type Expect struct {
 	TrailerList    bool // a Trailer value was a comma-separated list
 	TrailerLower   bool // a Trailer value was not in canonical header-key form
 	Committed      bool
+	Refused        map[int]bool // ops that exceed the declared Content-Length: must fail, write nothing
+}
+
+// overrun says whether the body writes of p fill a declared length cl > 0 exactly and only then
+// exceed it; it returns the indexes of the exceeding writes.
+func overrun(p *Program, cl int) (map[int]bool, bool) {
+	if cl <= 0 {
+		return nil, false
+	}
+	cum := 0
+	ref := map[int]bool{}
+	for i, op := range p.Ops {
+		switch op.K {
+		case "readfrom":
+			return nil, false
+		case "write", "writestring":
+			if op.N == 0 {
+				continue
+			}
+			if cum+op.N <= cl && len(ref) == 0 {
+				cum += op.N
+			} else if cum == cl {
+				ref[i] = true
+			} else {
+				return nil, false
+			}
+		}
+	}
+	return ref, len(ref) > 0 && cum == cl
 }
 
 func canon(k string) string { return http.CanonicalHeaderKey(textproto.TrimString(k)) }
@@ -272,6 +301,14 @@ func Model(p *Program) *Expect {
 		e.Skip = "content-length-with-trailer"
 	case e.ExplicitCL && !e.ExplicitTE && e.CL != e.Total:
 		e.Skip = "content-length-differs-from-bytes-written"
+		// one part of that is well defined: writes that fill the declared length exactly,
+		// followed by writes that would exceed it - those must be refused with an error and put
+		// nothing on the wire (net/http: ErrContentLength), the response is the declared one
+		if ref, ok := overrun(p, e.CL); ok {
+			e.Skip = ""
+			e.Refused = ref
+			e.Total = e.CL
+		}
 	}
 
 	switch {
